@@ -172,9 +172,12 @@ pub struct RunRecord {
     pub raw_requests: Vec<String>,
     /// filter expressions in the order the agent's log says it tried to evaluate them (debug events)
     pub eval_order: Vec<String>,
+    /// after every single load: (policy named in the payload, what it accepts then / why it is fail-open)
+    pub after_each_load: Vec<(String, Result<crate::junos::Accepts, String>)>,
 }
 
 struct ServerOut {
+    after_each_load: Vec<(String, Result<crate::junos::Accepts, String>)>,
     raw: Vec<String>,
     rpcs: Vec<String>,
     acked: Vec<Option<bool>>,
@@ -227,7 +230,7 @@ const ERR: &str = "<rpc-error><error-type>protocol</error-type><error-tag>operat
 
 #[allow(clippy::too_many_lines)]
 fn serve(accept: impl FnOnce() -> Option<Box<dyn AgentConn>>, scn: &Scenario) -> ServerOut {
-    let mut out = ServerOut { raw: vec![], rpcs: vec![], acked: vec![], ephemeral: scn.ephemeral.clone(), commits: 0, note: String::new() };
+    let mut out = ServerOut { after_each_load: vec![], raw: vec![], rpcs: vec![], acked: vec![], ephemeral: scn.ephemeral.clone(), commits: 0, note: String::new() };
     let Some(mut conn) = accept() else {
         out.note = "the agent never connected".into();
         return out;
@@ -305,7 +308,13 @@ fn serve(accept: impl FnOnce() -> Option<Box<dyn AgentConn>>, scn: &Scenario) ->
                     if let (Some(w), Some(cfg)) = (working.as_mut(), op.child("configuration")) {
                         // re-serialise the payload element for the reference apply
                         let payload = crate::c13::serialize(cfg, &[], &[]);
-                        _ = w.apply(&payload);
+                        if let Ok(rep) = w.apply(&payload) {
+                            for name in rep.touched.iter().filter(|n| !rep.deleted.contains(n)) {
+                                if let Some(p) = w.policies.get(name) {
+                                    out.after_each_load.push((name.clone(), p.accepts()));
+                                }
+                            }
+                        }
                     }
                     reply(&id, "<load-configuration-results><ok/></load-configuration-results>")
                 }
@@ -497,11 +506,12 @@ pub fn run_agent_on(scn: &Scenario, irrd: &Irrd, tag: &str, tls: Option<&crate::
     if let Some(t) = tls {
         _ = std::net::TcpStream::connect(("127.0.0.1", t.port));
     }
-    let out = server.join().unwrap_or_else(|_| ServerOut { raw: vec![], rpcs: vec![], acked: vec![], ephemeral: Instance::default(), commits: 0, note: "server thread panicked".into() });
+    let out = server.join().unwrap_or_else(|_| ServerOut { after_each_load: vec![], raw: vec![], rpcs: vec![], acked: vec![], ephemeral: Instance::default(), commits: 0, note: "server thread panicked".into() });
     rec.raw_requests = out.raw;
     rec.rpcs = out.rpcs;
     rec.acked = out.acked;
     rec.ephemeral_after = out.ephemeral;
+    rec.after_each_load = out.after_each_load;
     rec.commits = out.commits;
     rec.server_note = out.note;
     rec.irr_queries = irrd.take_log().into_iter().map(|l| l.query).collect();
@@ -1106,6 +1116,47 @@ pub fn c02_slice(report: &mut Report) -> u64 {
                 }
                 "get-config" | "commit-configuration" | "close-configuration" | "close-session" => {}
                 _ => {}
+            }
+        }
+        for (name, state) in &rec.after_each_load {
+            if let Err(why) = state {
+                report.violation("C02:e2e:fail-open-after-a-load", &format!("after one of the loads policy {name} is fail-open: {why}"), case.clone());
+            }
+        }
+    }
+    // a large policy whose prefix data is replaced completely (more than 2000 route-filters change): the state after
+    // EVERY single load must accept nothing outside the evaluated set of that run
+    for n in [600usize, 1100, 2100] {
+        let mut db = model.db.clone();
+        let set_a: Vec<String> = (0..n).map(|i| format!("10.{}.{}.0/24", i / 120, 2 * (i % 120))).collect();
+        let set_b: Vec<String> = (0..n).map(|i| format!("11.{}.{}.0/24", i / 120, 2 * (i % 120))).collect();
+        _ = db.routes4.insert("AS65200".into(), set_a.clone());
+        let irrd_big = Irrd::start(db.clone());
+        let running = vec![managed_stmt("pol-big", "AS65200")];
+        let first = run_agent(&Scenario { instance_name: None, running: running.clone(), ephemeral: Instance::default(), fault: None, expected_loads: 0, irr_plan: Plan::default() }, &irrd_big, "C02-big-install");
+        runs += 1;
+        if first.exit != Some(0) {
+            report.violation("C02:e2e:run-fails:large-policy", &format!("installing a policy of {n} ranges failed: {:?}; {}", first.exit, first.stderr_tail), json!({"ranges": n}));
+            continue;
+        }
+        _ = db.routes4.insert("AS65200".into(), set_b.clone());
+        *irrd_big.db.lock().unwrap() = db;
+        let second = run_agent(&Scenario { instance_name: None, running, ephemeral: first.ephemeral_after.clone(), fault: None, expected_loads: 0, irr_plan: Plan::default() }, &irrd_big, "C02-big-replace");
+        runs += 1;
+        let allowed: std::collections::BTreeSet<String> = set_b.iter().map(|p| format!("{p},24,24")).collect();
+        let case = json!({"ranges_installed": n, "ranges_evaluated": n, "loads": second.rpcs.iter().filter(|r| *r == "load-configuration").count(), "exit_status": second.exit});
+        if second.exit != Some(0) {
+            report.violation("C02:e2e:run-fails:large-policy", &format!("replacing {n} ranges failed: {:?}; {}", second.exit, second.stderr_tail), case.clone());
+        }
+        for (k, (name, state)) in second.after_each_load.iter().enumerate() {
+            match state {
+                Err(why) => report.violation("C02:e2e:fail-open-after-a-load:large-policy", &format!("after load {k} of the run that replaces {n} ranges, policy {name} is fail-open: {why}"), case.clone()),
+                Ok(acc) => {
+                    let outside = acc.v4.iter().filter(|r| !allowed.contains(*r)).count() + acc.v6.len();
+                    if outside > 0 {
+                        report.violation("C02:e2e:accepts-outside-evaluated-set-after-a-load:large-policy", &format!("after load {k} of the run that replaces {n} ranges, policy {name} still accepts {outside} ranges outside the evaluated set"), case.clone());
+                    }
+                }
             }
         }
     }
